@@ -389,6 +389,17 @@ class CliInputs:
         self.ped = os.path.join(d, "simple.pedigree.132.txt")
         with gzip.open(self.vcf, "rt") as fh:
             self.vcf_lines = fh.read().split("\n")
+        # six more SNVs in a region no read covers (CHR3:20-40): the assemble record of a target there calls no allele
+        # (every haplotype stays below the reporting threshold, FILTER=NOA) - a record kind of its own, whose presence earlier
+        # in a process must not change what follows
+        while self.vcf_lines and self.vcf_lines[-1] == "":
+            self.vcf_lines.pop()
+        self.vcf_lines += ["CHR3\t%d\t.\tA\tC\t.\t.\t." % pos for pos in (22, 25, 28, 31, 34, 37)] + [""]
+        plain = os.path.join(wd, "snvs-with-uncovered.vcf")
+        with open(plain, "w") as fh:
+            fh.write("\n".join(self.vcf_lines))
+        pysam.tabix_index(plain, preset="vcf", force=True)
+        self.vcf = plain + ".gz"
         with open(self.ref) as fh:
             self.ref_lines = fh.read().split("\n")
         self.snvs = {}  # (contig, pos1) -> set of alleles
